@@ -1120,4 +1120,4 @@ PROP.theorems = ["NV.C03." + t for t in (
     "wrap_id", "wrap_range", "tdiv_range", "tmod_range", "idiv_eq", "imod_eq")]
 PROP.witness_theorems = ["NV.C03." + t for t in (
     "witness_num_opeq_real", "witness_addeq_num_str", "assignop_agrees_Full_false", "witness_buf_store_zero",
-    "witness_eq_zero_real", "witness_optimistic_rewrite", "witness_pp_if_32", "witness_rev_range_wrap")]
+    "witness_eq_zero_real", "witness_optimistic_rewrite", "witness_rev_range_wrap")]
